@@ -24,6 +24,25 @@ func (emptyQuerier) SelectLogs(ctx context.Context, start, end otelstorage.Times
 
 // probeCmd: developer tool — parse and evaluate queries given as arguments over an empty store.
 func probeCmd(args []string) {
+	if len(args) > 0 && args[0] == "e2e" {
+		d, err := startFakeDaemon()
+		if err != nil {
+			fatal("%v", err)
+		}
+		defer d.Close()
+		var log []byte
+		for j, ts := range []int64{1700000001e9, 1700000002e9 + 5} {
+			log = append(log, c03Frame(c03Rec{TS: tsText(ts), Typ: byte(1 + j%2), Body: []byte(fmt.Sprintf("line %d lvl=warn\n", j))})...)
+		}
+		d.Load([]e2eCtr{{ID: "id0", Name: "web", Labels: [][2]string{{"tier", "fe"}}, Log: log}, {ID: "id1", Name: "db", Log: log}})
+		bin, err := pluginBinary("/verif")
+		if err != nil {
+			fatal("%v", err)
+		}
+		so, se, code, err := runPlugin(bin, d, append(args[1:], "--start=1700000000", "--end=1700000010", `{container="web"} |= "line"`))
+		fmt.Printf("exit=%d err=%v\nstdout:\n%s\nstderr:\n%s\nrequests: %v\n", code, err, so, se, d.Requests())
+		return
+	}
 	if len(args) > 0 && args[0] == "layoutrt" {
 		d, err := StartDriver("/verif/lean/.lake/build/bin/driver")
 		if err != nil {
